@@ -1006,4 +1006,15 @@ MUTANTS = [
      "edits": [("src/mailbox/coe/mod.rs", "                buf.extend_from_slice(response.get(..length).ok_or(Error::Internal)?)\n                    .map_err(|_| Error::Internal)?;", "                let _ = buf.extend_from_slice(response.get(..length).ok_or(Error::Internal)?);")]},
     {"id": "n-err-explicit-match", "property": "C11", "neutral": True, "also": ["C09"],
      "edits": [("src/subdevice/mod.rs", "        subdevice_ref.set_eeprom_mode(SiiOwner::Master).await?;\n\n        let eeprom = subdevice_ref.eeprom();", "        match subdevice_ref.set_eeprom_mode(SiiOwner::Master).await {\n            Ok(()) => {}\n            Err(e) => return Err(e),\n        }\n\n        let eeprom = subdevice_ref.eeprom();")]},
+    # ---------------- WAITLOOP ----------------
+    {"id": "wait-c13-eeprom-busy-no-timeout", "property": "C13", "expect": "C13.bounded|DeviceEeprom::wait_while_busy:under-timeout", "also": ["C14"],
+     "edits": [("src/eeprom/device_provider.rs", "        .timeout(self.maindevice.timeouts.eeprom())\n        .await?;", "        .await?;"),
+               ("src/eeprom/device_provider.rs", "                    break Ok(control);", "                    break Ok::<_, Error>(control);")]},
+    {"id": "wait-c16-mailbox-response-no-timeout", "property": "C16", "expect": "C16.bounded|Coe::wait_for_mailbox_response:under-timeout",
+     "edits": [("src/mailbox/coe/mod.rs", "        .timeout(self.subdevice.maindevice.timeouts.mailbox_response())\n        .await\n        .inspect_err(|&e| {", "        .await\n        .inspect_err(|&e: &Error| {"),
+               ("src/mailbox/coe/mod.rs", "                if sm_status.mailbox_full {\n                    break Ok(());", "                if sm_status.mailbox_full {\n                    break Ok::<(), Error>(());")]},
+    {"id": "n-wait-c16-other-accessor", "property": "C16", "neutral": True,
+     "edits": [("src/mailbox/coe/mod.rs", "        .timeout(self.subdevice.maindevice.timeouts.mailbox_response())", "        .timeout(self.subdevice.maindevice.timeouts.mailbox_echo())")]},
+    {"id": "wait-c16-new-poll-loop", "property": "C16", "expect": "C16.bounded|Coe::wait_for_mailboxes",
+     "edits": [("src/mailbox/coe/mod.rs", "        for i in 0..10 {\n            let sm_status = self", "        let mut i = 0;\n        loop {\n            i += 1;\n            let sm_status = self")]},
 ]
